@@ -48,7 +48,7 @@ pub struct Case {
     pattern: u32,
     /// nested value variant
     variant: u8,
-    /// "base" | "insert:<key>:<pos>:<valkind>" | "text:<key>:<pos>" | "remove:<key>" | "dup:<key>" | "options:omit" | "options:empty"
+    /// "base" | "many:<n>" | "insert:<key>:<pos>:<valkind>" | "text:<key>:<pos>" | "remove:<key>" | "dup:<key>" | "options:omit" | "options:empty"
     pub mutation: String,
 }
 
@@ -300,6 +300,26 @@ pub fn eval(c: &Case) -> (Vec<Finding>, String) {
             m.insert(pos, (Cbor::Integer((key as i64).into()), val));
             (Some(true), format!("unknown integer key {key} inserted at position {pos}"))
         }
+        "many" => {
+            // N unknown members at once: every unassigned integer key from 40 upwards, then text keys
+            let n: usize = parts[1].parse().unwrap_or(0);
+            let assigned: Vec<i128> = key_table(ty).iter().map(|t| i128::from(t.1)).collect();
+            let mut added = 0;
+            let mut key = 40i128;
+            while added < n {
+                if key <= 255 {
+                    if !assigned.contains(&key) {
+                        m.push((Cbor::Integer((key as i64).into()), Cbor::Integer((added as i64).into())));
+                        added += 1;
+                    }
+                    key += 1;
+                } else {
+                    m.push((Cbor::Text(format!("unknown{added}")), Cbor::Bool(true)));
+                    added += 1;
+                }
+            }
+            (Some(true), format!("{n} unknown members appended (a message of {} members)", m.len()))
+        }
         "text" => {
             let pos = parts[2].parse::<usize>().unwrap_or(0).min(m.len());
             m.insert(pos, (Cbor::Text(parts[1].to_string()), Cbor::Array(vec![Cbor::Bool(true)])));
@@ -407,6 +427,13 @@ pub fn cases(tier: Tier) -> Vec<Case> {
                         for pos in positions {
                             let kind = ["int", "map", "bytes"][(key as usize + pos) % 3];
                             v.push(mk(format!("insert:{key}:{pos}:{kind}")));
+                        }
+                    }
+                    // many unknown members at once (a newer protocol revision's message): counts around
+                    // the CBOR map-header boundaries 23/24 and 255/256
+                    if full || pattern == 0 {
+                        for n in [2usize, 10, 14, 15, 16, 17, 18, 20, 23, 24, 30, 100, 250, 256, 300] {
+                            v.push(mk(format!("many:{n}")));
                         }
                     }
                     for (t, _) in [("zzz", 0), ("", 0), ("notAMember", 0), ("é", 0)] {
@@ -517,7 +544,7 @@ pub fn run(ctx: &Ctx) -> Result<Run, String> {
     }
     let mut run = Run::from_stats(
         "exploration",
-        "for each of the six CTAP2 message types: all presence patterns of the optional members x 4 nested-value variants (one with repeated entries in every list, one with every nested optional structure and list present but empty; plus a variant with byte-string members of more than 4 KiB), serialised with ciborium and inspected as a generic CBOR value (one map spanning all serialised bytes; keys = the specification's integers for the present members, ascending, no nulls), round-tripped; mutations of the encodings: every integer key 0..255 not assigned to a member inserted (every position for the full pattern, at the end otherwise; all positions in thorough) with int/map/bytes values, unknown text keys at every position (also case and underscore variants of every member name), each required member removed or moved to a key of 2, 3 or 5 bytes with the same low byte (must be an error), each present member repeated under such a wide key with another value (ignored or rejected, never taken), each present member duplicated, options omitted / empty; all 256 status bytes converted both ways and injected as lookup failure under Client::authenticate. Every case is distinct",
+        "2..300 unknown members appended at once to the full and to the minimal message of each type (counts around the map-header boundaries 23/24 and 255/256): still the same message; for each of the six CTAP2 message types: all presence patterns of the optional members x 4 nested-value variants (one with repeated entries in every list, one with every nested optional structure and list present but empty; plus a variant with byte-string members of more than 4 KiB), serialised with ciborium and inspected as a generic CBOR value (one map spanning all serialised bytes; keys = the specification's integers for the present members, ascending, no nulls), round-tripped; mutations of the encodings: every integer key 0..255 not assigned to a member inserted (every position for the full pattern, at the end otherwise; all positions in thorough) with int/map/bytes values, unknown text keys at every position (also case and underscore variants of every member name), each required member removed or moved to a key of 2, 3 or 5 bytes with the same low byte (must be an error), each present member repeated under such a wide key with another value (ignored or rejected, never taken), each present member duplicated, options omitted / empty; all 256 status bytes converted both ways and injected as lookup failure under Client::authenticate. Every case is distinct",
         true,
         stats,
     );
